@@ -379,3 +379,6 @@ package evaluator
 //@   loop 1 invariant 0 <= i && i <= lackedArityNum && fresh(paddedArgs) && len(paddedArgs) == len(args) + i
 //@   loop 1 invariant forall k int :: {paddedArgs[k]} 0 <= k && k < len(args) ==> paddedArgs[k] == args[k]
 //@   loop 1 invariant forall k int :: {paddedArgs[k]} len(args) <= k && k < len(paddedArgs) ==> paddedArgs[k] == object.BuiltInNil
+//
+// the code wrapper of a function literal always carries its parameter list, keyword defaults and body
+//@ invariant evaluator.FuncWrapperImpl: self.args != nil && self.kwargs != nil && self.body != nil && self.kwargs.Pairs != nil
